@@ -20,8 +20,10 @@
  *   phase 1  their generated operation lists `repeats` times (every
  *            repetition of every operation is compared), and
  *   phase 2  a hot loop: every thread calls the SAME codec entry point (one
- *            of 17 lean encode / analyse / decode calls, or any of the 22
- *            phase-1 operations) back to back on one member of a group of
+ *            of 17 lean encode / analyse / decode calls, one of the 11
+ *            scalar / helper operations whose trace is compared byte by
+ *            byte, or any of the 22 older phase-1 operations) back to back
+ *            on one member of a group of
  *            four inputs of EQUAL length and different contents (member 0 =
  *            pool array `sel & 3`, members 1,2
  *            = the contents of the other two pool arrays tiled to that
@@ -33,6 +35,16 @@
  *            inputs of the same length.  Every iteration's returned length,
  *            metadata fields and output bytes are compared with the
  *            sequentially computed ones.
+ *
+ * Operations (33): the array codecs and scalar put/get pairs of the first
+ * version, plus - after an audit of the op table against the headers and the
+ * exported symbols of /repo/src - one operation per group of scalar entry
+ * points that nothing called: the in-place adds (histories on a private
+ * slot), fixed-width / quick-macro / 128-bit forms, 32-bit chained entry
+ * points, reversed split forms, single-value Elias coders with a private bit
+ * writer, varintDeltaPut/Get + zig-zag, dimension headers and a private
+ * matrix history, positional packed-array operations, and the remaining pure
+ * helpers of the array codecs (see the comment above sc_run).
  *
  * All outputs are thread-private.  oracle: in the `tsan` configuration any
  * ThreadSanitizer report kills the process (halt_on_error=1, exitcode=87; the
@@ -68,6 +80,7 @@
 #include "varintChainedSimple.h"
 #include "varintDelta.h"
 #include "varintDict.h"
+#include "varintDimension.h"
 #include "varintElias.h"
 #include "varintExternal.h"
 #include "varintExternalBigEndian.h"
@@ -159,8 +172,24 @@ enum op_kind {
     O_DECODE_SHARED,
     O_PACKED,
     O_BITSTREAM,
+    /* scalar entry points on thread-private storage (audit of the public
+     * scalar API, see the comment above sc_run) */
+    O_TAGGED_ADD,
+    O_EXTERNAL_ADD,
+    O_FIXED,
+    O_CHAINED32,
+    O_SPLIT_REV,
+    O_ELIAS_SINGLE,
+    O_DELTA_SCALAR,
+    O_DIM_HEADER,
+    O_DIM_MATRIX,
+    O_PACKED_POS,
+    O_HELPERS,
     O_COUNT
 };
+#define O_OLD_COUNT ((unsigned)O_BITSTREAM + 1) /* reachable as hot.op.* */
+#define O_SC_FIRST ((unsigned)O_TAGGED_ADD)
+#define SC_COUNT ((unsigned)O_COUNT - (unsigned)O_TAGGED_ADD)
 
 static const char *const op_name[O_COUNT] = {
     "scalar.tagged", "scalar.external", "scalar.chained", "scalar.split",
@@ -168,7 +197,11 @@ static const char *const op_name[O_COUNT] = {
     "pfor",          "group",           "dict",           "dict.shared",
     "rle",           "elias",           "bp128.32",       "bp128.64",
     "float",         "adaptive.auto",   "adaptive.forced", "decode.shared",
-    "packed12",      "bitstream"};
+    "packed12",      "bitstream",
+    "scalar.tagged.add", "scalar.external.add", "scalar.fixed",
+    "scalar.chained32",  "scalar.split.reversed", "elias.single",
+    "delta.scalar",      "dimension.header",    "dimension.matrix",
+    "packed12.positional", "array.helpers"};
 
 static uint64_t HB(uint64_t h, const void *p, size_t n) {
     return vf_hash_bytes(h, p, n);
@@ -761,6 +794,900 @@ static uint64_t op_bitstream(const pool_entry *p, unsigned par) {
     return HB(h, bs, sizeof(bs));
 }
 
+/* ------------------------------------------------ scalar entry points, part 2
+ * Audit of the op table against the public scalar API (headers + `nm` of the
+ * library objects): everything below was exported / defined in a header but
+ * not called by any operation above.  All storage written by these calls is
+ * thread-private (stack slots); the only shared memory is the read-only pool
+ * array the arguments are derived from.
+ *
+ * Every operation writes a TRACE: for each step the values the library
+ * returned and the bytes of the private slot after the call.  The phase-1
+ * operation compares the hash of the trace with the sequential run's, the
+ * hot-loop kind of the same name compares the trace byte by byte (the
+ * mismatch report names the offset and shows both windows).
+ *
+ *   scalar.tagged.add     varintTaggedAddGrow / AddNoGrow: a history of
+ *                         SC_STEPS adds on one 9-byte slot (amounts: small
+ *                         +/-, jumps to a width boundary -1/0/+1, any 64-bit
+ *                         amount (int64 overflow -> 0, slot untouched), back
+ *                         to nearly zero); trace = returned width + slot bytes
+ *                         after every add
+ *   scalar.external.add   the same for varintExternalAddGrow / AddNoGrow; the
+ *                         caller-side width follows the documented protocol
+ *                         (0: unchanged, no-grow refusal: unchanged, else the
+ *                         returned width)
+ *   scalar.fixed          tagged Put64FixedWidth / Put64FixedWidthQuick_ /
+ *                         Get / Get64Quick_ / Get64ReturnValue / GetLen /
+ *                         GetLenQuick_ / LenQuick / 32-bit put+get; external
+ *                         PutFixedWidth / ...Quick_ / ...QuickMedium_ /
+ *                         PutFixedWidthBig / GetQuick_ / GetQuickMedium_ /
+ *                         GetQuickMediumReturnValue_ / varintBigExternalGet /
+ *                         SignedEncoding / UnsignedEncoding; big-endian Put /
+ *                         PutFixedWidth / PutFixedWidthQuick_ / Get /
+ *                         GetQuick_ / UnsignedEncoding
+ *   scalar.chained32      varintChained_putVarint32 / _getVarint32 /
+ *                         GetVarint32 / VarintLen; chained-simple Encode32 /
+ *                         Decode32 / Decode32Fallback / Length
+ *   scalar.split.reversed ReversedPutReversed_ / ReversedPutForward_ /
+ *                         ReversedGet_ / GetLen_ / GetLenQuick_ / Length_ of
+ *                         Split, SplitFull, SplitFullNoZero (+ the forward
+ *                         length forms of SplitFull16)
+ *   elias.single          varintBitWriter* / varintBitReader* on a private
+ *                         buffer, varintEliasGamma|DeltaEncode / Decode / Bits
+ *                         value by value, IsBeneficial
+ *   delta.scalar          varintDeltaPut / Get, ZigZag / ZigZagDecode
+ *   dimension.header      varintDimensionPack / Unpack / Unpack_ macro,
+ *                         PairDimension / PairEncode / DEPAIR / BYTE_LENGTH
+ *   dimension.matrix      a history of cell writes and reads on one private
+ *                         matrix (unsigned width 1..8, float, double, bit:
+ *                         set / clear / toggle), whole buffer in the trace
+ *   packed12.positional   Insert / Delete / Set / SetHalf / SetIncr / Get at
+ *                         positions (the sorted forms are in packed12)
+ *   array.helpers         the remaining pure helpers of the array codecs on
+ *                         a private encoding of a prefix of the input:
+ *                         FORReadMetadata / GetMinValue / GetOffsetWidth /
+ *                         DecodeBlock / ComputeWidth / HasSIMD, PFORReadMeta,
+ *                         AdaptiveReadMeta / EncodingName / CheckSorted /
+ *                         CountUnique / AvgDelta, BP128 block encode / decode
+ *                         (+delta), MaxBitWidth / IsBeneficial / IsSorted,
+ *                         DictCompressionRatio, FloatDecompose / Compose /
+ *                         EncodeAuto, GroupGetFieldWidth, RLEDecodeRun /
+ *                         IsBeneficial */
+
+/* the header declares Put32/Get32, the .c file defines PutVarint32/GetVarint32:
+ * resolve whichever exists */
+varintWidth varintTaggedPut32(uint8_t *p, uint32_t v) __attribute__((weak));
+varintWidth varintTaggedGet32(const uint8_t *z, uint32_t *r)
+    __attribute__((weak));
+varintWidth varintTaggedPutVarint32(uint8_t *p, uint32_t v)
+    __attribute__((weak));
+varintWidth varintTaggedGetVarint32(const uint8_t *z, uint32_t *r)
+    __attribute__((weak));
+
+#define SC_STEPS 64
+#define SC_TRACE_MAX 8192 /* <= cap_for(0): fits every hot-loop output buffer */
+
+typedef struct trace {
+    uint8_t *b;
+    size_t n, cap;
+    int ovf; /* a harness sizing error, reported as a class by the main thread */
+} trace;
+
+static void t_raw(trace *t, const void *p, size_t k) {
+    if (t->n + k > t->cap) {
+        t->ovf = 1;
+        return;
+    }
+    memcpy(t->b + t->n, p, k);
+    t->n += k;
+}
+static void t_u8(trace *t, uint64_t v) {
+    const uint8_t b = (uint8_t)v;
+    t_raw(t, &b, 1);
+}
+static void t_u32(trace *t, uint64_t v) {
+    const uint32_t b = (uint32_t)v;
+    t_raw(t, &b, 4);
+}
+static void t_u64(trace *t, uint64_t v) {
+    t_raw(t, &v, 8);
+}
+
+/* step selector: pool value i (wrapping) mixed with the op parameter */
+static uint64_t sc_x(const pool_entry *p, size_t i, unsigned par) {
+    uint64_t x = p->raw[i % p->n] + 0x9e3779b97f4a7c15ULL * (par + 1) + i;
+    x ^= x >> 31;
+    x *= 0xff51afd7ed558ccdULL;
+    x ^= x >> 29;
+    return x;
+}
+
+static uint64_t f32bits(float f) {
+    uint32_t u;
+    memcpy(&u, &f, 4);
+    return u;
+}
+static uint64_t f64bits(double f) {
+    uint64_t u;
+    memcpy(&u, &f, 8);
+    return u;
+}
+
+/* amount of one in-place add; `cur` is what the slot holds now */
+static int64_t sc_amount(uint64_t x, uint64_t cur, const uint64_t *edges,
+                         unsigned nedges) {
+    switch ((x >> 4) & 7) {
+    case 0:
+        return (int64_t)(1 + ((x >> 8) & 0xff));
+    case 1:
+        return -(int64_t)(1 + ((x >> 8) & 0xff));
+    case 2: {
+        /* to a width boundary of the family -1 / 0 / +1 */
+        const uint64_t target = edges[(x >> 8) % nedges] + (x >> 16) % 3 - 1;
+        return (int64_t)(target - cur);
+    }
+    case 3:
+        return (int64_t)x; /* any amount: int64 overflow is frequent */
+    case 4:
+        return (int64_t)(x >> 40);
+    case 5:
+        return -(int64_t)(x >> 40);
+    case 6:
+        /* back to a small value (the encoding shrinks) */
+        return (int64_t)(((x >> 8) & 0x1ff) - cur);
+    default:
+        return (int64_t)(x >> (16 + ((x >> 8) & 31)));
+    }
+}
+
+static void sc_tagged_add(const pool_entry *p, unsigned par, trace *t) {
+    static const uint64_t edges[9] = {240ULL,
+                                      2287ULL,
+                                      67823ULL,
+                                      (1ULL << 24) - 1,
+                                      (1ULL << 32) - 1,
+                                      (1ULL << 40) - 1,
+                                      (1ULL << 48) - 1,
+                                      (1ULL << 56) - 1,
+                                      (uint64_t)INT64_MAX};
+    uint8_t slot[16];
+    memset(slot, 0xA5, sizeof(slot));
+    const uint64_t v0 = p->raw[0] >> (8 * ((par >> 2) & 7));
+    t_u8(t, varintTaggedPut64(slot, v0));
+    t_raw(t, slot, 9);
+    for (size_t i = 0; i < SC_STEPS; i++) {
+        const uint64_t x = sc_x(p, i, par);
+        uint64_t cur = 0;
+        varintTaggedGet64(slot, &cur);
+        const int64_t amount = sc_amount(x, cur, edges, 9);
+        const int grow = (par & 2) ? (int)(x & 1) : (int)(par & 1);
+        const varintWidth w = grow ? varintTaggedAddGrow(slot, amount)
+                                   : varintTaggedAddNoGrow(slot, amount);
+        t_u8(t, w);
+        t_raw(t, slot, 9);
+    }
+    t_raw(t, slot, sizeof(slot));
+}
+
+static void sc_external_add(const pool_entry *p, unsigned par, trace *t) {
+    static const uint64_t edges[8] = {0xffULL,
+                                      0xffffULL,
+                                      0xffffffULL,
+                                      0xffffffffULL,
+                                      (1ULL << 40) - 1,
+                                      (1ULL << 48) - 1,
+                                      (1ULL << 56) - 1,
+                                      (uint64_t)INT64_MAX};
+    uint8_t slot[16];
+    memset(slot, 0xA5, sizeof(slot));
+    const uint64_t v0 = p->raw[0] >> (8 * ((par >> 2) & 7));
+    varintWidth w;
+    varintExternalUnsignedEncoding(v0, w);
+    /* the slot may be wider than the value needs */
+    w = (varintWidth)(w + (par >> 5) % (9 - w));
+    varintExternalPutFixedWidth(slot, v0, w);
+    t_u8(t, w);
+    t_raw(t, slot, 8);
+    for (size_t i = 0; i < SC_STEPS; i++) {
+        const uint64_t x = sc_x(p, i, par);
+        const uint64_t cur = varintExternalGet(slot, w);
+        const int64_t amount = sc_amount(x, cur, edges, 8);
+        const int grow = (par & 2) ? (int)(x & 1) : (int)(par & 1);
+        const varintWidth ret = grow ? varintExternalAddGrow(slot, w, amount)
+                                     : varintExternalAddNoGrow(slot, w, amount);
+        if (ret != VARINT_WIDTH_INVALID && (grow || ret <= w)) {
+            w = ret; /* stored: the value now occupies `ret` bytes */
+        }
+        t_u8(t, ret);
+        t_u8(t, w);
+        t_raw(t, slot, 8);
+    }
+    t_raw(t, slot, sizeof(slot));
+}
+
+static int sc_tagged_width_legal(uint64_t v, unsigned w) {
+    switch (w) {
+    case 1:
+        return v <= 240;
+    case 2:
+        return v >= 240 && v <= 2287;
+    case 3:
+        return v >= 2288 && v <= 67823;
+    case 9:
+        return 1;
+    default:
+        return w >= 4 && w <= 8 && (v >> (8 * (w - 1))) == 0;
+    }
+}
+
+static void sc_fixed(const pool_entry *p, unsigned par, trace *t) {
+    for (size_t i = 0; i < 24; i++) {
+        const uint64_t x = sc_x(p, i, par);
+        const uint64_t v = p->raw[i % p->n] >> (8 * ((x >> 3) & 7));
+        uint8_t b[24], c[24];
+        /* ---- tagged ---- */
+        {
+            const unsigned minimal = varintTaggedLen(v);
+            unsigned w = minimal;
+            for (unsigned k = 0; k < 9; k++) {
+                const unsigned cand =
+                    minimal + (unsigned)((x >> 8) + k) % (10 - minimal);
+                if (sc_tagged_width_legal(v, cand)) {
+                    w = cand;
+                    break;
+                }
+            }
+            memset(b, 0, sizeof(b));
+            memset(c, 0, sizeof(c));
+            t_u8(t, varintTaggedLenQuick(v));
+            t_u8(t, varintTaggedPut64FixedWidth(b, v, (varintWidth)w));
+            varintTaggedPut64FixedWidthQuick_(c, v, w);
+            t_raw(t, b, 9);
+            t_raw(t, c, 9);
+            uint64_t r = 0;
+            t_u8(t, varintTaggedGet(b, 9, &r));
+            t_u64(t, r);
+            r = 0;
+            t_u8(t, varintTaggedGet(b, (int32_t)w, &r));
+            t_u64(t, r);
+            r = 0;
+            t_u8(t, varintTaggedGet(b, (int32_t)w - 1, &r)); /* too short: 0 */
+            t_u64(t, r);
+            t_u64(t, varintTaggedGet64Quick_(b));
+            t_u64(t, varintTaggedGet64ReturnValue(b));
+            t_u8(t, varintTaggedGetLen(b));
+            t_u8(t, varintTaggedGetLenQuick_(b));
+            if (v <= 0xffffffffULL) {
+                uint32_t r32 = 0;
+                memset(c, 0, sizeof(c));
+                if (varintTaggedPutVarint32 && varintTaggedGetVarint32) {
+                    t_u8(t, varintTaggedPutVarint32(c, (uint32_t)v));
+                    t_u8(t, varintTaggedGetVarint32(c, &r32));
+                } else if (varintTaggedPut32 && varintTaggedGet32) {
+                    t_u8(t, varintTaggedPut32(c, (uint32_t)v));
+                    t_u8(t, varintTaggedGet32(c, &r32));
+                }
+                t_u32(t, r32);
+                t_raw(t, c, 9);
+            }
+        }
+        /* ---- external, little endian ---- */
+        {
+            varintWidth minimal;
+            varintExternalUnsignedEncoding(v, minimal);
+            const unsigned w = minimal + (unsigned)(x >> 12) % (9 - minimal);
+            t_u8(t, minimal);
+            if (v <= (uint64_t)INT64_MAX) {
+                t_u8(t, varintExternalSignedEncoding((int64_t)v));
+                t_u8(t, varintExternalLen(v));
+            }
+            memset(b, 0, sizeof(b));
+            varintExternalPutFixedWidth(b, v, (varintWidth)w);
+            t_raw(t, b, 8);
+            memset(b, 0, sizeof(b));
+            varintExternalPutFixedWidthQuick_(b, v, w);
+            t_raw(t, b, 8);
+            memset(b, 0, sizeof(b));
+            varintExternalPutFixedWidthQuickMedium_(b, v, w);
+            t_raw(t, b, 8);
+            uint64_t r = 0;
+            t_u64(t, varintExternalGet(b, (varintWidth)w));
+            varintExternalGetQuick_(b, w, r);
+            t_u64(t, r);
+            r = 0;
+            varintExternalGetQuickMedium_(b, w, r);
+            t_u64(t, r);
+            t_u64(t, varintExternalGetQuickMediumReturnValue_(b, w));
+            /* 128-bit forms, widths 1..16 */
+            const unsigned wb = 1 + (unsigned)(x >> 20) % 16;
+            const __uint128_t big = ((__uint128_t)x << 64) | v;
+            memset(c, 0, sizeof(c));
+            varintExternalPutFixedWidthBig(c, big, (varintWidth)wb);
+            t_raw(t, c, 16);
+            const __uint128_t rb = varintBigExternalGet(c, (varintWidth)wb);
+            t_u64(t, (uint64_t)rb);
+            t_u64(t, (uint64_t)(rb >> 64));
+        }
+        /* ---- external, big endian ---- */
+        {
+            varintWidth minimal;
+            varintExternalBigEndianUnsignedEncoding(v, minimal);
+            const unsigned w = minimal + (unsigned)(x >> 28) % (9 - minimal);
+            t_u8(t, minimal);
+            memset(b, 0, sizeof(b));
+            t_u8(t, varintExternalBigEndianPut(b, v));
+            t_raw(t, b, 8);
+            t_u64(t, varintExternalBigEndianGet(b, minimal));
+            memset(b, 0, sizeof(b));
+            varintExternalBigEndianPutFixedWidth(b, v, (varintWidth)w);
+            t_raw(t, b, 8);
+            memset(c, 0, sizeof(c));
+            varintExternalBigEndianPutFixedWidthQuick_(c, v, w);
+            t_raw(t, c, 8);
+            uint64_t r = 0;
+            t_u64(t, varintExternalBigEndianGet(b, (varintWidth)w));
+            varintExternalBigEndianGetQuick_(c, w, r);
+            t_u64(t, r);
+        }
+    }
+}
+
+static void sc_chained32(const pool_entry *p, unsigned par, trace *t) {
+    for (size_t i = 0; i < 48; i++) {
+        const uint64_t x = sc_x(p, i, par);
+        const uint64_t v = p->raw[i % p->n];
+        const uint32_t v32 = (uint32_t)v >> (7 * ((x >> 3) % 5));
+        uint8_t b[16];
+        uint32_t r32 = 0;
+        uint64_t r = 0;
+        memset(b, 0, sizeof(b));
+        t_u8(t, varintChained_putVarint32(b, v32));
+        t_raw(t, b, 9);
+        t_u8(t, varintChainedVarintLen(v32));
+        t_u8(t, varintChained_getVarint32(b, r32));
+        t_u32(t, r32);
+        if (b[0] & 0x80) {
+            /* documented: the function is for multi-byte encodings, the
+             * one-byte case belongs to the macro */
+            r32 = 0;
+            t_u8(t, varintChainedGetVarint32(b, &r32));
+            t_u32(t, r32);
+        }
+        t_u8(t, varintChainedGetVarint(b, &r));
+        t_u64(t, r);
+        t_u8(t, varintChainedVarintLen(v));
+        /* chained simple */
+        memset(b, 0, sizeof(b));
+        t_u8(t, varintChainedSimpleEncode32(b, v32));
+        t_raw(t, b, 9);
+        t_u8(t, varintChainedSimpleLength(v32));
+        t_u8(t, varintChainedSimpleLength(v));
+        r32 = 0;
+        t_u8(t, varintChainedSimpleDecode32(b, &r32));
+        t_u32(t, r32);
+        r32 = 0;
+        t_u8(t, varintChainedSimpleDecode32Fallback(b, &r32));
+        t_u32(t, r32);
+        r = 0;
+        t_u8(t, varintChainedSimpleDecode64(b, &r));
+        t_u64(t, r);
+    }
+}
+
+#define SC_SPLIT_REVERSED(PFX, t, v)                                           \
+    do {                                                                       \
+        uint8_t b_[32];                                                        \
+        unsigned len_ = 0, gl_ = 0;                                            \
+        uint64_t r_ = 0;                                                       \
+        uint8_t *last_ = b_ + 12;                                              \
+        memset(b_, 0, sizeof(b_));                                             \
+        PFX##ReversedPutReversed_(last_, len_, (v));                           \
+        t_u8((t), len_);                                                       \
+        t_raw((t), b_, 16);                                                    \
+        PFX##GetLen_(last_, gl_);                                              \
+        t_u8((t), gl_);                                                        \
+        t_u8((t), PFX##GetLenQuick_(last_));                                   \
+        gl_ = 0;                                                               \
+        PFX##ReversedGet_(last_, gl_, r_);                                     \
+        t_u8((t), gl_);                                                        \
+        t_u64((t), r_);                                                        \
+        memset(b_, 0, sizeof(b_));                                             \
+        len_ = 0;                                                              \
+        PFX##ReversedPutForward_(b_, len_, (v));                               \
+        t_u8((t), len_);                                                       \
+        t_raw((t), b_, 16);                                                    \
+        if (len_ >= 1 && len_ <= 9) {                                          \
+            last_ = b_ + (len_ - 1);                                           \
+            gl_ = 0;                                                           \
+            r_ = 0;                                                            \
+            PFX##ReversedGet_(last_, gl_, r_);                                 \
+            t_u8((t), gl_);                                                    \
+            t_u64((t), r_);                                                    \
+        }                                                                      \
+        gl_ = 0;                                                               \
+        PFX##Length_(gl_, (v));                                                \
+        t_u8((t), gl_);                                                        \
+    } while (0)
+
+static void sc_split_reversed(const pool_entry *p, unsigned par, trace *t) {
+    for (size_t i = 0; i < 24; i++) {
+        const uint64_t x = sc_x(p, i, par);
+        const uint64_t v = p->raw[i % p->n] >> (8 * ((x >> 3) & 7));
+        const uint64_t vnz = v ? v : 1;
+        SC_SPLIT_REVERSED(varintSplit, t, v);
+        SC_SPLIT_REVERSED(varintSplitFull, t, v);
+        SC_SPLIT_REVERSED(varintSplitFullNoZero, t, vnz);
+        {
+            /* SplitFull16 has forward forms only: length predictors */
+            uint8_t b[16];
+            unsigned len = 0, gl = 0;
+            memset(b, 0, sizeof(b));
+            varintSplitFull16Put_(b, len, v);
+            t_u8(t, len);
+            varintSplitFull16Length_(gl, v);
+            t_u8(t, gl);
+            gl = 0;
+            varintSplitFull16GetLen_(b, gl);
+            t_u8(t, gl);
+            t_u8(t, varintSplitFull16GetLenQuick_(b));
+        }
+    }
+}
+
+static void sc_elias_single(const pool_entry *p, unsigned par, trace *t) {
+    enum { K = 24 };
+    /* worst case 127 bits (gamma) per value */
+    uint8_t buf[K * 16 + 16];
+    const int delta = par & 1;
+    varintBitWriter w;
+    varintBitWriterInit(&w, buf, sizeof(buf));
+    uint64_t vals[K];
+    for (size_t i = 0; i < K; i++) {
+        const uint64_t x = sc_x(p, i, par);
+        uint64_t v = p->ge1[i % p->n] >> ((x >> 3) & 63);
+        vals[i] = v ? v : 1;
+        const size_t bits = delta ? varintEliasDeltaEncode(&w, vals[i])
+                                  : varintEliasGammaEncode(&w, vals[i]);
+        t_u8(t, bits);
+        t_u8(t, delta ? varintEliasDeltaBits(vals[i])
+                      : varintEliasGammaBits(vals[i]));
+        t_u32(t, w.bitPos);
+    }
+    const size_t bytes = varintBitWriterBytes(&w);
+    t_u32(t, bytes);
+    t_raw(t, buf, bytes <= sizeof(buf) ? bytes : sizeof(buf));
+    varintBitReader r;
+    varintBitReaderInit(&r, buf, w.bitPos);
+    for (size_t i = 0; i < K; i++) {
+        t_u8(t, varintBitReaderHasMore(&r, 1));
+        t_u64(t, delta ? varintEliasDeltaDecode(&r) : varintEliasGammaDecode(&r));
+        t_u32(t, r.bitPos);
+    }
+    t_u8(t, varintBitReaderHasMore(&r, 1));
+    t_u8(t, varintEliasGammaIsBeneficial(vals, K));
+    t_u8(t, varintEliasDeltaIsBeneficial(vals, K));
+    t_u8(t, varintEliasGammaIsBeneficial(p->ge1, p->n < 256 ? p->n : 256));
+    t_u8(t, varintEliasDeltaIsBeneficial(p->ge1, p->n < 256 ? p->n : 256));
+    /* raw bit fields of 1..64 bits through the same writer / reader */
+    uint8_t raw[K * 8 + 8];
+    uint8_t nb[K];
+    varintBitWriterInit(&w, raw, sizeof(raw));
+    for (size_t i = 0; i < K; i++) {
+        const uint64_t x = sc_x(p, i + K, par);
+        nb[i] = (uint8_t)(1 + (x >> 5) % 64);
+        uint64_t v = x ^ p->raw[i % p->n];
+        if (nb[i] < 64) {
+            v &= (1ULL << nb[i]) - 1;
+        }
+        varintBitWriterWrite(&w, v, nb[i]);
+    }
+    t_u32(t, w.bitPos);
+    t_raw(t, raw, varintBitWriterBytes(&w));
+    varintBitReaderInit(&r, raw, w.bitPos);
+    for (size_t i = 0; i < K; i++) {
+        if (varintBitReaderHasMore(&r, nb[i])) {
+            t_u64(t, varintBitReaderRead(&r, nb[i]));
+        }
+    }
+    t_u8(t, varintBitReaderHasMore(&r, 1));
+}
+
+static void sc_delta_scalar(const pool_entry *p, unsigned par, trace *t) {
+    for (size_t i = 0; i < 48; i++) {
+        const uint64_t x = sc_x(p, i, par);
+        int64_t d;
+        switch (x & 3) {
+        case 0:
+            d = p->sd[i % p->n];
+            break;
+        case 1:
+            d = (int64_t)x; /* any 64-bit pattern, INT64_MIN included */
+            break;
+        case 2:
+            d = -(int64_t)(p->raw[i % p->n] >> (1 + ((x >> 3) & 63) % 63));
+            break;
+        default:
+            d = (int64_t)(p->raw[i % p->n] >> (1 + ((x >> 3) & 63) % 63));
+            break;
+        }
+        uint8_t b[16];
+        memset(b, 0, sizeof(b));
+        const uint64_t zz = varintDeltaZigZag(d);
+        t_u64(t, zz);
+        t_u64(t, (uint64_t)varintDeltaZigZagDecode(zz));
+        t_u8(t, varintDeltaPut(b, d));
+        t_raw(t, b, 9);
+        int64_t r = 0;
+        t_u8(t, varintDeltaGet(b, &r));
+        t_u64(t, (uint64_t)r);
+    }
+}
+
+static void sc_dim_header(const pool_entry *p, unsigned par, trace *t) {
+    for (size_t i = 0; i < 24; i++) {
+        const uint64_t x = sc_x(p, i, par);
+        /* packed pairs: mostly below 2^32 (supported), some above */
+        const unsigned s1 = (x & 7) ? 32 + (unsigned)(x >> 3) % 32 : 20;
+        const unsigned s2 = ((x >> 8) & 7) ? 32 + (unsigned)(x >> 11) % 32 : 24;
+        const size_t row = (size_t)(p->raw[(2 * i) % p->n] >> s1);
+        const size_t col = (size_t)(sc_x(p, i + 100, par) >> s2);
+        uint64_t packed = 0;
+        varintDimensionPacked dim = (varintDimensionPacked)0;
+        const bool ok = varintDimensionPack(row, col, &packed, &dim);
+        t_u8(t, ok);
+        if (ok) {
+            t_u64(t, packed);
+            t_u8(t, dim);
+            size_t r2 = 0, c2 = 0;
+            varintDimensionUnpack(&r2, &c2, packed, dim);
+            t_u64(t, r2);
+            t_u64(t, c2);
+            uint64_t r3 = 0, c3 = 0;
+            varintDimensionUnpack_(r3, c3, packed, dim);
+            t_u64(t, r3);
+            t_u64(t, c3);
+        }
+        /* pair header: row width 0..8 (0 = vector), column width 1..8 */
+        const unsigned rw = (unsigned)(x >> 20) % 9, cw = 1 + (unsigned)(x >> 24) % 8;
+        const uint64_t rows =
+            rw == 0 ? 0 : (p->raw[i % p->n] | 1) >> (64 - 8 * rw);
+        uint64_t cols = (sc_x(p, i + 200, par) | 1) >> (64 - 8 * cw);
+        cols = cols ? cols : 1;
+        uint8_t hdr[24];
+        memset(hdr, 0, sizeof(hdr));
+        const varintDimensionPair pd =
+            varintDimensionPairDimension((size_t)rows, (size_t)cols);
+        const varintDimensionPair pe =
+            varintDimensionPairEncode(hdr, (size_t)rows, (size_t)cols);
+        t_u8(t, pd);
+        t_u8(t, pe);
+        unsigned a = 0, b = 0;
+        VARINT_DIMENSION_PAIR_DEPAIR(a, b, pe);
+        t_u8(t, a);
+        t_u8(t, b);
+        t_u8(t, VARINT_DIMENSION_PAIR_BYTE_LENGTH(pe));
+        t_raw(t, hdr, 16);
+    }
+}
+
+static void sc_dim_matrix(const pool_entry *p, unsigned par, trace *t) {
+    const uint64_t x0 = sc_x(p, 0, par);
+    const unsigned kind = par & 3; /* unsigned / float / double / bit */
+    const unsigned width = 1 + (par >> 2) % 8;
+    const int vector = ((x0 >> 16) & 3) == 0;
+    const size_t R = vector ? 1 : 1 + (size_t)(x0 % 5);
+    const size_t C = 1 + (size_t)((x0 >> 8) % 13);
+    /* header (<= 2 bytes here) + 5 * 13 cells of <= 8 bytes + slack */
+    uint8_t buf[16 + 5 * 13 * 8 + 16];
+    memset(buf, 0, sizeof(buf));
+    const varintDimensionPair dim =
+        varintDimensionPairEncode(buf, vector ? 0 : R, C);
+    t_u8(t, dim);
+    for (size_t i = 0; i < 48; i++) {
+        const uint64_t x = sc_x(p, i + 1, par);
+        const size_t r = (size_t)(x % R), c = (size_t)((x >> 8) % C);
+        const size_t r2 = (size_t)((x >> 16) % R), c2 = (size_t)((x >> 24) % C);
+        const uint64_t val = p->raw[i % p->n] ^ (x >> 32);
+        switch (kind) {
+        case 0: {
+            const uint64_t m =
+                width >= 8 ? val : val & ((1ULL << (8 * width)) - 1);
+            varintDimensionPairEntrySetUnsigned(buf, r, c, m, (varintWidth)width,
+                                                dim);
+            t_u64(t, varintDimensionPairEntryGetUnsigned(
+                         buf, r, c, (varintWidth)width, dim));
+            t_u64(t, varintDimensionPairEntryGetUnsigned(
+                         buf, r2, c2, (varintWidth)width, dim));
+            break;
+        }
+        case 1: {
+            const float f = (float)(int32_t)(val >> 32) / 7.0f;
+            varintDimensionPairEntrySetFloat(buf, r, c, f, dim);
+            t_u32(t, f32bits(varintDimensionPairEntryGetFloat(buf, r, c, dim)));
+            t_u32(t, f32bits(varintDimensionPairEntryGetFloat(buf, r2, c2, dim)));
+            break;
+        }
+        case 2: {
+            const double f = (double)(int64_t)val / 1025.0;
+            varintDimensionPairEntrySetDouble(buf, r, c, f, dim);
+            t_u64(t, f64bits(varintDimensionPairEntryGetDouble(buf, r, c, dim)));
+            t_u64(t,
+                  f64bits(varintDimensionPairEntryGetDouble(buf, r2, c2, dim)));
+            break;
+        }
+        default:
+            switch ((x >> 40) % 3) {
+            case 0:
+                varintDimensionPairEntrySetBit(buf, r, c, true, dim);
+                break;
+            case 1:
+                varintDimensionPairEntrySetBit(buf, r, c, false, dim);
+                break;
+            default:
+                t_u8(t, varintDimensionPairEntryToggleBit(buf, r, c, dim));
+                break;
+            }
+            t_u8(t, varintDimensionPairEntryGetBit(buf, r, c, dim));
+            t_u8(t, varintDimensionPairEntryGetBit(buf, r2, c2, dim));
+            break;
+        }
+    }
+    t_raw(t, buf, sizeof(buf));
+}
+
+static void sc_packed_pos(const pool_entry *p, unsigned par, trace *t) {
+    uint32_t holder[64]; /* 2048 bits = 170 elements of 12 bits */
+    memset(holder, 0, sizeof(holder));
+    uint32_t len = 0;
+    for (size_t i = 0; i < 96; i++) {
+        const uint64_t x = sc_x(p, i, par);
+        const uint16_t val = (uint16_t)((x >> 20) & 0xfff);
+        switch ((x >> 8) % 7) {
+        case 0:
+        case 1:
+            if (len < PK_CAP) {
+                c17Packed12Insert(holder, len, (uint32_t)(x >> 40) % (len + 1),
+                                  val);
+                len++;
+            }
+            break;
+        case 2:
+            if (len > 0) {
+                c17Packed12Delete(holder, len, (uint32_t)(x >> 40) % len);
+                len--;
+            }
+            break;
+        case 3:
+            if (len > 0) {
+                c17Packed12Set(holder, (uint32_t)(x >> 40) % len, val);
+            }
+            break;
+        case 4:
+            if (len > 0) {
+                c17Packed12SetHalf(holder, (uint32_t)(x >> 40) % len);
+            }
+            break;
+        case 5:
+            if (len > 0) {
+                /* documented use: a non-negative increment that stays in
+                 * range */
+                const uint32_t at = (uint32_t)(x >> 40) % len;
+                const uint16_t cur = c17Packed12Get(holder, at);
+                c17Packed12SetIncr(holder, at, (int64_t)(val % (0x1000u - cur)));
+            }
+            break;
+        default:
+            if (len > 0) {
+                t_u32(t, c17Packed12Get(holder, (uint32_t)(x >> 40) % len));
+            }
+            break;
+        }
+        t_u8(t, len);
+    }
+    for (uint32_t i = 0; i < len; i++) {
+        const uint16_t e = c17Packed12Get(holder, i);
+        t_raw(t, &e, 2);
+    }
+    t_raw(t, holder, sizeof(holder));
+}
+
+static void sc_helpers(const pool_entry *p, unsigned par, trace *t) {
+    const size_t n = p->n < 160 ? p->n : 160;
+    uint8_t dst[160 * 27 + 8400];
+    uint64_t out[160];
+    memset(dst, 0, 64);
+    /* FOR */
+    {
+        varintFORMeta m, rm;
+        memset(&m, 0, sizeof(m));
+        memset(&rm, 0, sizeof(rm));
+        const size_t len = varintFOREncode(dst, p->raw, n, &m);
+        t_u32(t, len);
+        varintFORReadMetadata(dst, &rm);
+        t_u64(t, rm.minValue);
+        t_u64(t, rm.count);
+        t_u8(t, rm.offsetWidth);
+        t_u64(t, varintFORGetMinValue(dst));
+        t_u8(t, varintFORGetOffsetWidth(dst));
+        t_u8(t, varintFORComputeWidth(m.range));
+        t_u8(t, varintFORComputeWidth(p->raw[par % p->n]));
+        t_u8(t, varintFORHasSIMD());
+        const size_t start = par % n, block = 1 + (par >> 3) % 16;
+        memset(out, 0, sizeof(out));
+        const size_t got = varintFORDecodeBlock(dst, out, start, block);
+        t_u32(t, got);
+        t_raw(t, out, (got <= 160 ? got : 160) * 8);
+    }
+    /* PFOR */
+    {
+        varintPFORMeta m, rm;
+        const size_t len = enc_pfor(dst, p->raw, n, par, &m, NULL);
+        t_u32(t, len);
+        if (len) {
+            memset(&rm, 0, sizeof(rm));
+            t_u8(t, varintPFORReadMeta(dst, &rm));
+            t_u64(t, rm.min);
+            t_u8(t, rm.width);
+            t_u32(t, rm.count);
+            t_u32(t, rm.exceptionCount);
+            t_u64(t, rm.exceptionMarker);
+        }
+    }
+    /* adaptive */
+    {
+        varintAdaptiveMeta m, rm;
+        memset(&m, 0, sizeof(m));
+        const size_t len =
+            (par & 1) ? varintAdaptiveEncode(dst, p->raw, n, &m)
+                      : varintAdaptiveEncodeWith(
+                            dst, p->raw, n,
+                            (par & 2) ? VARINT_ADAPTIVE_PFOR : VARINT_ADAPTIVE_FOR,
+                            &m);
+        t_u32(t, len);
+        if (len) {
+            memset(&rm, 0, sizeof(rm));
+            t_u8(t, varintAdaptiveReadMeta(dst, &rm));
+            t_u8(t, rm.encodingType);
+            t_u64(t, rm.originalCount);
+            t_u64(t, rm.encodedSize);
+            const char *name = varintAdaptiveEncodingName(rm.encodingType);
+            t_raw(t, name, strlen(name));
+        }
+        t_u32(t, (uint32_t)varintAdaptiveCheckSorted(p->raw, n));
+        t_u32(t, (uint32_t)varintAdaptiveCheckSorted(p->sorted, n));
+        t_u64(t, varintAdaptiveCountUnique(p->raw, n));
+        t_u64(t, varintAdaptiveAvgDelta(p->raw, n));
+    }
+    /* BP128 */
+    {
+        t_u8(t, varintBP128MaxBitWidth32(p->u32, n));
+        t_u8(t, varintBP128MaxBitWidth64(p->raw, n));
+        t_u8(t, varintBP128IsBeneficial32(p->u32, n));
+        t_u8(t, varintBP128IsBeneficial64(p->raw, n));
+        t_u8(t, varintBP128IsSorted32(p->s32, n));
+        t_u8(t, varintBP128IsSorted32(p->u32, n));
+        t_u8(t, varintBP128IsSorted64(p->sorted, n));
+        t_u8(t, varintBP128IsSorted64(p->raw, n));
+        if (p->n >= 128) {
+            uint32_t o32[128];
+            memset(o32, 0, sizeof(o32));
+            size_t len = varintBP128EncodeBlock32(dst, p->u32);
+            t_u32(t, len);
+            t_raw(t, dst, len);
+            t_u32(t, varintBP128DecodeBlock32(dst, o32));
+            t_raw(t, o32, sizeof(o32));
+            const uint32_t prev = p->s32[0] >> (par & 1);
+            len = varintBP128DeltaEncodeBlock32(dst, p->s32, prev);
+            t_u32(t, len);
+            t_raw(t, dst, len);
+            t_u32(t, varintBP128DeltaDecodeBlock32(dst, o32, prev));
+            t_raw(t, o32, sizeof(o32));
+        }
+    }
+    /* dictionary, float, group, RLE */
+    {
+        t_u32(t, f32bits(varintDictCompressionRatio(p->raw, n)));
+        for (size_t i = 0; i < 8 && i < n; i++) {
+            uint64_t sign = 0, mant = 0;
+            int16_t ex = 0;
+            const bool normal = varintFloatDecompose(p->dbl[i], &sign, &ex, &mant);
+            t_u8(t, normal);
+            t_u64(t, sign);
+            t_u32(t, (uint16_t)ex);
+            t_u64(t, mant);
+            t_u64(t, f64bits(varintFloatCompose(sign, ex, mant)));
+        }
+        static const double tol[4] = {1e-9, 1e-5, 1e-2, 0.5};
+        varintFloatPrecision prec = (varintFloatPrecision)0;
+        const size_t len =
+            varintFloatEncodeAuto(dst, p->dbl, n, tol[par & 3],
+                                  (varintFloatEncodingMode)((par >> 2) % 3), &prec);
+        t_u32(t, len);
+        t_u8(t, prec);
+        t_u64(t, HB(0, dst, len));
+    }
+    {
+        const uint8_t k = (uint8_t)(n > 64 ? 64 : n);
+        const size_t len = varintGroupEncode(dst, p->raw, k);
+        t_u32(t, len);
+        for (unsigned i = 0; i < 4; i++) {
+            t_u8(t, varintGroupGetFieldWidth(dst, (uint8_t)((par + i * 17) % (k + 1u))));
+        }
+    }
+    {
+        const size_t len = varintRLEEncode(dst, p->raw, n, NULL);
+        t_u32(t, len);
+        size_t run = 0;
+        uint64_t val = 0;
+        t_u8(t, varintRLEDecodeRun(dst, &run, &val));
+        t_u64(t, run);
+        t_u64(t, val);
+        t_u8(t, varintRLEIsBeneficial(p->raw, n));
+    }
+}
+
+/* runs scalar kind `sk` (0 .. SC_COUNT-1) into the trace buffer; returns the
+ * trace length */
+static size_t sc_run(unsigned sk, unsigned par, const pool_entry *p, uint8_t *buf,
+                     size_t cap, int *ovf) {
+    trace t = {buf, 0, cap, 0};
+    switch (O_SC_FIRST + sk) {
+    case O_TAGGED_ADD:
+        sc_tagged_add(p, par, &t);
+        break;
+    case O_EXTERNAL_ADD:
+        sc_external_add(p, par, &t);
+        break;
+    case O_FIXED:
+        sc_fixed(p, par, &t);
+        break;
+    case O_CHAINED32:
+        sc_chained32(p, par, &t);
+        break;
+    case O_SPLIT_REV:
+        sc_split_reversed(p, par, &t);
+        break;
+    case O_ELIAS_SINGLE:
+        sc_elias_single(p, par, &t);
+        break;
+    case O_DELTA_SCALAR:
+        sc_delta_scalar(p, par, &t);
+        break;
+    case O_DIM_HEADER:
+        sc_dim_header(p, par, &t);
+        break;
+    case O_DIM_MATRIX:
+        sc_dim_matrix(p, par, &t);
+        break;
+    case O_PACKED_POS:
+        sc_packed_pos(p, par, &t);
+        break;
+    default:
+        sc_helpers(p, par, &t);
+        break;
+    }
+    if (ovf) {
+        *ovf = t.ovf;
+    }
+    return t.n;
+}
+
+/* trace did not fit: set by any thread, turned into a class by the main
+ * thread (never happens with the sizes above; a silent truncation would only
+ * weaken the comparison, not falsify it) */
+static atomic_int g_trace_ovf;
+
+static uint64_t op_sc(const pool_entry *p, unsigned codec, unsigned par) {
+    uint8_t buf[SC_TRACE_MAX];
+    int ovf = 0;
+    const size_t n = sc_run(codec - O_SC_FIRST, par, p, buf, sizeof(buf), &ovf);
+    if (ovf) {
+        atomic_store_explicit(&g_trace_ovf, 1, memory_order_relaxed);
+    }
+    return HB(vf_mix(codec, n), buf, n);
+}
+
 static uint64_t op_run_on(const shared *S, const pool_entry *p, unsigned codec,
                           unsigned par) {
     switch (codec) {
@@ -803,8 +1730,10 @@ static uint64_t op_run_on(const shared *S, const pool_entry *p, unsigned codec,
         return op_decode_shared(p, par);
     case O_PACKED:
         return op_packed(p, par);
-    default:
+    case O_BITSTREAM:
         return op_bitstream(p, par);
+    default:
+        return op_sc(p, codec, par);
     }
 }
 
@@ -962,10 +1891,11 @@ enum hot_kind {
     H_DELTA_ENC,
     H_GROUP_ENC,
     H_DECODE,
-    H_COUNT
+    H_SC_FIRST, /* one kind per scalar operation (sc_run), trace compared */
+    H_COUNT = H_SC_FIRST + (O_COUNT - O_TAGGED_ADD)
 };
 
-static const char *const hot_name[H_COUNT] = {
+static const char *const hot_name[H_SC_FIRST] = {
     "for.encode",     "for.analyze",      "pfor.encode",  "pfor.threshold",
     "dict.encode",    "dict.size",        "rle.encode",   "rle.analyze",
     "elias.encode",   "bp128.encode",     "float.encode", "adaptive.encode",
@@ -973,7 +1903,7 @@ static const char *const hot_name[H_COUNT] = {
     "decode"};
 
 /* names of the metadata words, in the order hot_call() stores them */
-static const char *const hot_meta[H_COUNT] = {
+static const char *const hot_meta[H_SC_FIRST] = {
     "minValue,maxValue,range,count,encodedSize,offsetWidth",
     "minValue,maxValue,range,count,encodedSize,offsetWidth",
     "min,exceptionMarker,thresholdValue,width,count,exceptionCount,threshold",
@@ -996,8 +1926,21 @@ static const char *const hot_meta[H_COUNT] = {
     "aux0,aux1,aux2"};
 
 /* rough relative cost per element, used only to size the iteration count */
-static const uint8_t hot_weight[H_COUNT] = {1, 1, 16, 12, 16, 12, 2, 2, 6,
+static const uint8_t hot_weight[H_SC_FIRST] = {1, 1, 16, 12, 16, 12, 2, 2, 6,
                                             1, 8, 16, 8,  12, 2,  1, 3};
+
+static const char *hot_lean_name(unsigned kind) {
+    return kind < H_SC_FIRST ? hot_name[kind]
+                             : op_name[O_SC_FIRST + (kind - H_SC_FIRST)];
+}
+static const char *hot_lean_meta(unsigned kind) {
+    return kind < H_SC_FIRST ? hot_meta[kind] : "";
+}
+/* cost of one trace in units of 64 elements of a FOR encode; measured 9 11 18
+ * 14 10 100 7 7 7 14 440, the scalar kinds deliberately get ~3x their share
+ * (their windows are a few instructions wide: volume matters) */
+static const uint8_t sc_weight[O_COUNT - O_TAGGED_ADD] = {3, 3, 6, 5,  4,  40,
+                                                          3, 3, 3, 5, 200};
 
 #define HOT_MAXMETA 16
 
@@ -1010,12 +1953,6 @@ typedef struct hot_io {
     uint64_t meta[HOT_MAXMETA];
     unsigned nmeta;
 } hot_io;
-
-static uint64_t f32bits(float f) {
-    uint32_t u;
-    memcpy(&u, &f, 4);
-    return u;
-}
 
 static void hot_decode(unsigned par, const pool_entry *p, hot_io *io) {
     const size_t n = p->n;
@@ -1301,9 +2238,18 @@ static void hot_call(unsigned kind, unsigned par, const pool_entry *p,
         M(varintGroupSize(p->raw, k));
         break;
     }
-    default:
+    case H_DECODE:
         hot_decode(par, p, io);
         break;
+    default: {
+        int ovf = 0;
+        io->ret = sc_run(kind - H_SC_FIRST, par, p, dst, SC_TRACE_MAX, &ovf);
+        io->nbytes = io->ret;
+        if (ovf) {
+            atomic_store_explicit(&g_trace_ovf, 1, memory_order_relaxed);
+        }
+        break;
+    }
     }
 #undef M
 }
@@ -1349,7 +2295,7 @@ typedef struct hotctx {
 
 static const char *hot_kind_name(const hotctx *H, char *buf, size_t cap) {
     if (H->kind < H_COUNT) {
-        snprintf(buf, cap, "hot.%s", hot_name[H->kind]);
+        snprintf(buf, cap, "hot.%s", hot_lean_name(H->kind));
     } else {
         snprintf(buf, cap, "hot.op.%s", op_name[H->kind - H_COUNT]);
     }
@@ -1481,6 +2427,15 @@ static int stopped(const ctl *C) {
     return atomic_load_explicit(&((ctl *)C)->stop, memory_order_relaxed);
 }
 
+static void hexwin(char *o, size_t cap, const uint8_t *p, size_t n, size_t from,
+                   size_t k) {
+    size_t len = 0;
+    o[0] = 0;
+    for (size_t i = from; i < n && i < from + k && len + 3 < cap; i++) {
+        len += (size_t)snprintf(o + len, cap - len, "%02x", p[i]);
+    }
+}
+
 static void hot_loop(worker *w) {
     const ctl *C = w->C;
     const hotctx *H = C->H;
@@ -1517,7 +2472,7 @@ static void hot_loop(worker *w) {
                      "hot loop: thread %u of %u, iteration %u of %u, %s par=%u "
                      "on member %u (%s, n=%zu): returned %zu, the sequential "
                      "call returned %zu",
-                     w->id, C->nthreads, it, H->iters, hot_name[H->kind], H->par,
+                     w->id, C->nthreads, it, H->iters, hot_lean_name(H->kind), H->par,
                      w->member, variant, p->n, io->ret, e->ret);
             return;
         }
@@ -1528,12 +2483,12 @@ static void hot_loop(worker *w) {
                 k++;
             }
             char fname[40];
-            nth_name(hot_meta[H->kind], k, fname, sizeof(fname));
+            nth_name(hot_lean_meta(H->kind), k, fname, sizeof(fname));
             rec_fail(w, site, "meta",
                      "hot loop: thread %u of %u, iteration %u of %u, %s par=%u "
                      "on member %u (%s, n=%zu): metadata field %s = %llu, the "
                      "sequential call gave %llu",
-                     w->id, C->nthreads, it, H->iters, hot_name[H->kind], H->par,
+                     w->id, C->nthreads, it, H->iters, hot_lean_name(H->kind), H->par,
                      w->member, variant, p->n, fname,
                      (unsigned long long)(k < io->nmeta ? io->meta[k] : 0),
                      (unsigned long long)(k < e->nmeta ? e->meta[k] : 0));
@@ -1546,14 +2501,31 @@ static void hot_loop(worker *w) {
             while (k < io->nbytes && k < e->nbytes && a[k] == e->bytes[k]) {
                 k++;
             }
+            /* both windows from the start of the 10-byte record (add
+             * histories: returned width, then the slot) or 4 bytes back */
+            char got[40], want[40], where[48];
+            size_t from = k >= 4 ? k - 4 : 0;
+            where[0] = 0;
+            if (H->kind == H_SC_FIRST + ((unsigned)O_TAGGED_ADD - O_SC_FIRST) ||
+                H->kind == H_SC_FIRST + ((unsigned)O_EXTERNAL_ADD - O_SC_FIRST)) {
+                const size_t hdr = H->kind == H_SC_FIRST ? 10 : 9;
+                if (k >= hdr && (k - hdr) / 10 < SC_STEPS) {
+                    from = hdr + (k - hdr) / 10 * 10;
+                    snprintf(where, sizeof(where),
+                             " = add #%zu (returned width, slot bytes)",
+                             (k - hdr) / 10);
+                }
+            }
+            hexwin(got, sizeof(got), a, io->nbytes, from, 12);
+            hexwin(want, sizeof(want), e->bytes, e->nbytes, from, 12);
             rec_fail(w, site, "value",
                      "hot loop: thread %u of %u, iteration %u of %u, %s par=%u "
                      "on member %u (%s, n=%zu): output of %zu bytes differs "
-                     "from the sequential call's at byte %zu (0x%02x, "
-                     "sequential 0x%02x)",
-                     w->id, C->nthreads, it, H->iters, hot_name[H->kind], H->par,
-                     w->member, variant, p->n, io->nbytes, k,
-                     k < io->nbytes ? a[k] : 0, k < e->nbytes ? e->bytes[k] : 0);
+                     "from the sequential call's at byte %zu%s: bytes %zu.. "
+                     "are %s, sequential %s",
+                     w->id, C->nthreads, it, H->iters, hot_lean_name(H->kind),
+                     H->par, w->member, variant, p->n, io->nbytes, k, where,
+                     from, got, want);
             return;
         }
     }
@@ -1866,6 +2838,9 @@ static void run_case(vf_report *rep, shared *S, hotctx *H, worker *W,
         done += W[t].hot_done;
     }
     vf_class_n("hot.iterations", done);
+    if (atomic_load(&g_trace_ovf)) {
+        vf_class("harness.trace-truncated");
+    }
     if (!ok) {
         vf_discard("pthread_create failed or barrier timed out");
         return;
@@ -1901,6 +2876,8 @@ static size_t hot_span(unsigned kind, size_t n) {
     size_t cap = n;
     if (kind == H_GROUP_ENC) {
         cap = 64;
+    } else if (kind >= H_SC_FIRST && kind < H_COUNT) {
+        return SC_STEPS; /* a trace costs the same whatever the input length */
     } else if (kind >= H_COUNT) {
         switch (kind - H_COUNT) {
         case O_TAGGED:
@@ -1997,7 +2974,9 @@ void vf_run(vf_rd *r, vf_report *rep) {
 
     /* hot loop parameters */
     H->on = hunits != 0;
-    H->kind = hkind % (H_COUNT + O_COUNT);
+    /* lean entry points (incl. one per scalar operation), then the older
+     * phase-1 operations as hot.op.* */
+    H->kind = hkind % (H_COUNT + O_OLD_COUNT);
     H->par = hpar;
     H->group = (hsel & 3) % NPOOL;
     H->shift = 8 * ((hsel >> 2) & 7);
@@ -2007,7 +2986,10 @@ void vf_run(vf_rd *r, vf_report *rep) {
     hot_kind_name(H, hname, sizeof(hname));
     if (H->on) {
         const size_t n = S->p[H->group].n;
-        const unsigned weight = H->kind < H_COUNT ? hot_weight[H->kind] : 10;
+        const unsigned weight = H->kind < H_SC_FIRST ? hot_weight[H->kind]
+                                : H->kind < H_COUNT
+                                    ? sc_weight[H->kind - H_SC_FIRST]
+                                    : 10;
         const uint64_t unit = (tsan ? 640u : 8192u) * (vf_tier() ? 2u : 1u);
         uint64_t it = (uint64_t)hunits * unit / (hot_span(H->kind, n) * weight);
         H->iters = it < 4 ? 4 : it > 40000 ? 40000 : (unsigned)it;
@@ -2096,11 +3078,13 @@ void vf_run(vf_rd *r, vf_report *rep) {
     case_free(S, H, W, nthreads);
 }
 
-/* deterministic smoke case: 16 threads, every codec in several threads on
- * three fixed pool arrays, then a hot loop of PFOR encodes over all four
- * members, shared and private (also a cold start when nothing ran before it
- * in this process) */
-void vf_sweep(vf_report *rep) {
+/* deterministic smoke cases: 16 threads, every codec in several threads on
+ * three fixed pool arrays, then a hot loop over all four members, shared and
+ * private (also a cold start when nothing ran before it in this process).
+ * Case 0 hammers PFOR encodes; one further case per scalar operation hammers
+ * that operation's entry points (in-place adds, fixed-width forms, ...). */
+static void sweep_case(vf_report *rep, unsigned hot, unsigned par, unsigned units,
+                       unsigned rot) {
     static const uint8_t pool[] = {
         /* 128 values of 20 random bits */
         2, 9, 0, VF_SH_RANDOM_WIDTH, 38, 1, 0x11, 0x22, 0x33, 0x44, 0x55, 0x66,
@@ -2113,13 +3097,13 @@ void vf_sweep(vf_report *rep) {
         0x07};
     uint8_t c[7 + 8 + sizeof(pool) + 16 * (1 + 2 * MAXOPS)];
     size_t k = 0;
-    c[k++] = 14;         /* 16 threads */
-    c[k++] = 3;          /* repeats */
-    c[k++] = 0x31;       /* minimum lengths: 64, none, 1024 */
-    c[k++] = H_PFOR_ENC; /* hot entry point */
-    c[k++] = 0;          /* par */
-    c[k++] = 1 << 2;     /* group 0, member 3 shifted by 8 bits */
-    c[k++] = 40;         /* units */
+    c[k++] = 14;             /* 16 threads */
+    c[k++] = 3;              /* repeats */
+    c[k++] = 0x31;           /* minimum lengths: 64, none, 1024 */
+    c[k++] = (uint8_t)hot;   /* hot entry point */
+    c[k++] = (uint8_t)par;   /* par */
+    c[k++] = 1 << 2;         /* group 0, member 3 shifted by 8 bits */
+    c[k++] = (uint8_t)units; /* units */
     for (unsigned t = 0; t < 16; t += 2) {
         /* member t & 3, private copy for t & 4 */
         c[k++] = (uint8_t)((t & 7) | (((t + 1) & 7) << 4));
@@ -2129,10 +3113,18 @@ void vf_sweep(vf_report *rep) {
     for (unsigned t = 0; t < 16; t++) {
         c[k++] = MAXOPS - 1;
         for (unsigned i = 0; i < MAXOPS; i++) {
-            c[k++] = (uint8_t)((t * 3 + i * 5) % O_COUNT);
+            c[k++] = (uint8_t)((t * 3 + i * 5 + rot) % O_COUNT);
             c[k++] = (uint8_t)(i * 7 + t);
         }
     }
     vf_rd r = {c, k, 0};
     vf_run(&r, rep);
+}
+
+void vf_sweep(vf_report *rep) {
+    sweep_case(rep, H_PFOR_ENC, 0, 40, 0);
+    for (unsigned sk = 0; sk < SC_COUNT && !rep->violated; sk++) {
+        /* par: mixed grow / no-grow adds, a different start width per case */
+        sweep_case(rep, H_SC_FIRST + sk, 2 + 4 * sk + 32 * (sk & 7), 12, 7 * (sk + 1));
+    }
 }
